@@ -373,6 +373,70 @@ def typed_view_flatten(repo, res, rule):
     return n
 
 
+DIRECT_LISTS = ("_children", "children", "_sources", "_sensors", "_collections", "sources", "sensors", "collections")
+
+
+def e7(repo, res):
+    """E7 a parent link is cleared only for an object that is unlisted from the list that holds it: in the collection classes, `x._parent = None`
+    (x not `self`, not a parameter) is either guarded by the unlisting helper called with x, or x runs over a *direct* listing of this
+    collection (`self._children`, a typed view, a copy / alias of one) - never over a flattened listing (`*_all`, `format_obj_input(self, ..)`,
+    `check_format_input_obj(self, ..)` without recursive=False): members of sub-collections would lose their parent link while their owner
+    still lists them."""
+    n = 0
+    for m, qn, fn, cl in repo.all_functions():
+        if cl is None or not m.name.endswith("class_Collection"):
+            continue
+        params = {a.arg for a in fn.args.posonlyargs + fn.args.args + fn.args.kwonlyargs}
+        defs = {}
+        for a in ast.walk(fn):
+            if isinstance(a, ast.Assign) and len(a.targets) == 1 and isinstance(a.targets[0], ast.Name):
+                defs.setdefault(a.targets[0].id, []).append(a.value)
+        parents = {}
+        for x in ast.walk(fn):
+            for ch in ast.iter_child_nodes(x):
+                parents[id(ch)] = x
+
+        def direct(e, depth=0):
+            if isinstance(e, ast.Name) and len(defs.get(e.id, [])) == 1 and depth < 3:
+                return direct(defs[e.id][0], depth + 1)
+            if isinstance(e, ast.Attribute) and isinstance(e.value, ast.Name) and e.value.id == "self":
+                return e.attr in DIRECT_LISTS
+            if isinstance(e, ast.Call) and len(e.args) == 1 and not e.keywords and getattr(e.func, "id", "") in ("list", "tuple", "reversed", "sorted"):
+                return direct(e.args[0], depth)
+            if isinstance(e, ast.Call) and isinstance(e.func, ast.Attribute) and e.func.attr == "copy" and not e.args:
+                return direct(e.func.value, depth)
+            if isinstance(e, ast.Subscript) and isinstance(e.slice, ast.Slice):
+                return direct(e.value, depth)
+            if isinstance(e, (ast.ListComp, ast.GeneratorExp)) and len(e.generators) == 1 and isinstance(e.elt, ast.Name) \
+                    and isinstance(e.generators[0].target, ast.Name) and e.elt.id == e.generators[0].target.id:
+                return direct(e.generators[0].iter, depth)          # a filtered copy of a direct listing
+            return False
+        for st in ast.walk(fn):
+            if not (isinstance(st, ast.Assign) and len(st.targets) == 1 and isinstance(st.targets[0], ast.Attribute) and st.targets[0].attr == "_parent"
+                    and isinstance(st.targets[0].value, ast.Name) and isinstance(st.value, ast.Constant) and st.value.value is None):
+                continue
+            x = st.targets[0].value.id
+            if x == "self" or x in params:
+                continue
+            n += 1
+            ok, why = False, ""
+            cur = st
+            while id(cur) in parents:
+                cur = parents[id(cur)]
+                if isinstance(cur, ast.If) and any(isinstance(c_, ast.Call) and isinstance(_remover_call(c_), ast.Name) and _remover_call(c_).id == x for c_ in ast.walk(cur.test)):
+                    ok, why = True, "guarded by the unlisting helper"
+                    break
+                if isinstance(cur, (ast.For, ast.comprehension)) and any(isinstance(t_, ast.Name) and t_.id == x for t_ in ast.walk(cur.target)):
+                    ok = direct(cur.iter)
+                    why = f"runs over {norm(cur.iter)}"
+                    break
+            res.ob(f"E7:{qn}:{norm(st)}", ok, {"rule": "E7", "function": qn, "store": norm(st), "object": why})
+            if not ok:
+                res.add(Finding("E7", m.rel, qn, st, f"`{x}` {why or 'is not drawn from a direct listing of this collection'}: a parent link is cleared for an object that is "
+                                "not unlisted from the collection that holds it (members of sub-collections keep being listed by their owner)", st.lineno))
+    res.require(n >= 4, f"E7: only {n} parent-link clearing stores found in the collection classes")
+
+
 def e6(repo, res):
     """E6 the view refresh itself is unconditional: `_update_src_and_sens` (the call that discharges STALE in E1) stores all three typed
     views on every path from its entry to every exit - an early return (`if not self._children: return`) leaves the views of an emptied
@@ -427,7 +491,7 @@ def e6(repo, res):
 
 
 def run(repo, res, tier):
-    res.rules = ["E1 tree-edit typestate on all exits", "E2 who-may-write tree attributes", "E3 cycle test dominates parent store", "E4 copy restores the parent link", "E5 typed flattenings share the traversal of children_all", "E5b no level-by-level flattening from typed views", "E6 the view refresh is unconditional"]
+    res.rules = ["E1 tree-edit typestate on all exits", "E2 who-may-write tree attributes", "E3 cycle test dominates parent store", "E4 copy restores the parent link", "E5 typed flattenings share the traversal of children_all", "E5b no level-by-level flattening from typed views", "E6 the view refresh is unconditional", "E7 parent links are cleared for direct members only"]
     g = CallGraph(repo)
     raising = raising_functions(g)
     # method names that collide with container methods: only the repo meaning counts when the receiver is not a list
@@ -540,6 +604,7 @@ def run(repo, res, tier):
                         f"guards={[norm(x.test) for x in guards]}", stores[0].lineno))
     e5(repo, res)
     e6(repo, res)
+    e7(repo, res)
     typed_view_flatten(repo, res, 'E5b')
     res.assumptions += ["container operations (list.remove/append) and isinstance do not raise on the paths examined",
                         "callee summaries: Collection.add (complete on normal return), Collection.remove (detaches on normal return) - "
